@@ -103,16 +103,19 @@ def headingNames : List Name := [.h1, .h2, .h3, .h4, .h5, .h6]
 /-- the loop of the `li` / `dd`,`dt` start tag rules: walk down the stack; at an element named in
 `close` generate implied end tags except for it and pop up to it; stop at a special element other than
 address, div, p -/
-def closeListItem (c : Cfg) (close : List Name) (s : State) : State :=
-  let rec go : List El → Option Name
-    | [] => none
-    | e :: es =>
-      if e.isHtmlIn close then some e.name
-      else if e.isSpecial c.dev && !e.isHtmlIn [.address, .div, .p] then none
-      else go es
-  match go s.stack with
-  | some n => (s.genImplied (some n)).popUntilNamed n
-  | none => s
+def closeListItemTarget (d : Dev) (close : List Name) : List El → Option Name
+  | [] => none
+  | e :: es =>
+    if e.isHtmlIn close then some e.name
+    else if e.isSpecial d && !e.isHtmlIn [.address, .div, .p] then none
+    else closeListItemTarget d close es
+
+def Tree.closeListItem (c : Cfg) (close : List Name) (t : Tree) : Tree :=
+  match closeListItemTarget c.dev close t.stack with
+  | some n => (t.genImplied (some n)).popUntilNamed n
+  | none => t
+
+abbrev closeListItem (c : Cfg) (close : List Name) (s : State) : State := s.onTree (·.closeListItem c close)
 
 /-- the formatting element named `a` after the last marker, if any -/
 def findAfeA : List AfeEntry → Option El := findFormatting .a
@@ -131,7 +134,7 @@ def inBodyStart (c : Cfg) (s : State) (n0 : Name) (a : Attrs) (selfClosing : Boo
     else if !s.framesetOk then .ignore s
     else
       -- pop all the nodes from the current node up to, but not including, the root html element
-      let s := { s with stack := s.stack.drop (s.stack.length - 1) }
+      let s := s.onTree (fun t => { t with stack := t.stack.drop (t.stack.length - 1) })
       .ok { s.insertHtml n a with mode := .inFrameset }
   else if n.isIn blockStartNames then .ok ((s.closePInButtonScope c).insertHtml n a)
   else if n.isIn headingNames then
@@ -680,7 +683,7 @@ def afterHead (c : Cfg) (s : State) (t : Token) : Res :=
     else if n.isIn headStartNames then
       -- push the node pointed to by the head element pointer, process using "in head", remove it
       match s.headPtr with
-      | some h => (inHead c { s with stack := h :: s.stack } t).mapState (·.removeFromStack h.id)
+      | some h => (inHead c (s.onTree (fun t => { t with stack := h :: t.stack })) t).mapState (·.removeFromStack h.id)
       | none => inHead c s t     -- not reachable: the pointer is set before this mode is entered
     else if n == .head then .ignore s
     else anythingElse
